@@ -79,7 +79,8 @@ func registerSched() {
 		Mutate: func(c *spec.Case, seed int64, idx int) { oracle.ResetC06() },
 		Gen: func(seed int64, idx int, tier string) *spec.Case {
 			if idx%3 == 1 { // a third of the cases: department-contention clusters with min-runtimes and workload controllers
-				return gen.ContentionWith(seed, idx, tier, gen.ContentionOpts{MinRuntime: true, EarlyRecreate: true})
+				// every other one of them with a freshly started elastic workload in protected queues (ElasticFocus)
+				return gen.ContentionWith(seed, idx, tier, gen.ContentionOpts{MinRuntime: true, EarlyRecreate: true, ElasticFocus: idx%2 == 0})
 			}
 			return nil
 		},
